@@ -140,6 +140,20 @@ def witness(e, v):
     return {}
 
 
+def replay_segs(viols, limit=20):
+    """Segments to re-run: first one per violation kind, then the remaining ones up to the limit."""
+    first = {}
+    for v in viols:
+        first.setdefault((v["pred"], v["sig"]), v["seg"])
+    segs = list(dict.fromkeys(first.values()))
+    for v in viols:
+        if len(segs) >= limit:
+            break
+        if v["seg"] not in segs:
+            segs.append(v["seg"])
+    return sorted(segs)
+
+
 def run(ctx):
     q = ctx.quick
     ctx.keep = bool(os.environ.get("VERIF_KEEP"))
@@ -249,4 +263,4 @@ def run(ctx):
                          "oom adj = 1000 - 1000*request/capacity)",
                          "byte quantities are exact little-endian limbs in base 10^6; capacities range from 1 MiB to 2^46+1",
                          "container cases use memory limit 0 (none) and a node capacity of 16 GiB + 12345"],
-                        {"tier": ctx.tier, "seed": int(ctx.seed), "segs": sorted({v["seg"] for v in mine})[:20]})
+                        {"tier": ctx.tier, "seed": int(ctx.seed), "segs": replay_segs(mine)})
